@@ -413,7 +413,8 @@ func (g *Gen) overdraftOriginProgram() *GProgram {
 	fn := "overdraft"
 	if g.r.Chance(1, 3) {
 		fn = "balance"
-		g.bal["a"][asset] = bi(int64(g.r.Intn(40)))
+		g.bal["a"][asset] = bi(int64(g.r.Intn(60) - 20)) // balance() of an overdrawn account is an error, with or without the flag
+		g.flag = g.r.Chance(1, 2)
 	}
 	g.prog.Vars = append(g.prog.Vars, &GVarDecl{Type: "monetary", Name: "o",
 		Origin: &GFnCall{Name: fn, Args: []*GExpr{acct("a"), {Kind: XAsset, S: asset}}}})
@@ -440,5 +441,98 @@ func (g *Gen) overdraftOriginProgram() *GProgram {
 	if g.r.Chance(1, 2) {
 		g.prog.Stmts = append(g.prog.Stmts, &GStmt{Kind: StCall, Call: &GFnCall{Name: "set_tx_meta", Args: []*GExpr{{Kind: XString, S: "o"}, {Kind: XVar, S: "o"}}}})
 	}
+	return g.prog
+}
+
+// overdraftTwice: the same account is drawn with a bounded overdraft (bound > 0) more than once -
+// in two statements, or twice in one source: the bound is granted once, not at every evaluation.
+func (g *Gen) overdraftTwiceProgram() *GProgram {
+	asset := "USD"
+	g.asset = asset
+	g.smallBalances([]string{"a", "b"}, asset, 12)
+	if g.r.Chance(1, 3) {
+		g.bal["a"][asset] = bi(0)
+	}
+	bound := func() *GExpr { return lit(asset, bi(int64(1+g.r.Intn(15)))) }
+	od := func() *GSource { return &GSource{Kind: SrcOverdraft, E: acct("a"), Bounded: bound()} }
+	amount := func() *GSent { return &GSent{E: lit(asset, bi(int64(g.r.Intn(25))))} }
+	n := 2 + g.r.Intn(2)
+	for i := 0; i < n; i++ {
+		var src *GSource
+		switch g.r.Intn(4) {
+		case 0:
+			src = od()
+		case 1:
+			src = &GSource{Kind: SrcInorder, Subs: []*GSource{od(), srcAcct("b"), od()}}
+		case 2:
+			src = &GSource{Kind: SrcInorder, Subs: []*GSource{srcAcct("a"), od()}}
+		default:
+			src = &GSource{Kind: SrcInorder, Subs: []*GSource{od(), srcAcct("world")}}
+		}
+		sent := amount()
+		if g.r.Chance(1, 6) {
+			sent = &GSent{All: true, E: &GExpr{Kind: XAsset, S: asset}}
+			src = od()
+		}
+		g.prog.Stmts = append(g.prog.Stmts, &GStmt{Kind: StSend, Sent: sent, Src: src, Dst: dstAcct([]string{"c", "d"}[g.r.Intn(2)])})
+	}
+	return g.prog
+}
+
+// effectsCarry: one account, a first statement that changes its balance in an unusual way (money
+// sent to @world, to itself, received, partly through an allotment), then a statement whose
+// outcome depends on the exact balance left.
+func (g *Gen) effectsCarryProgram() *GProgram {
+	asset := "USD"
+	g.asset = asset
+	g.smallBalances([]string{"a", "b"}, asset, 40)
+	if g.bal["a"][asset].Sign() <= 0 {
+		g.bal["a"][asset] = bi(int64(5 + g.r.Intn(30)))
+	}
+	have := g.bal["a"][asset].Int64()
+	k := int64(1 + g.r.Intn(int(have)))
+	left := have
+	var first *GStmt
+	switch g.r.Intn(5) {
+	case 0: // to @world
+		first = &GStmt{Kind: StSend, Sent: &GSent{E: lit(asset, bi(k))}, Src: srcAcct("a"), Dst: dstAcct("world")}
+		left = have - k
+	case 1: // partly to @world through an allotment
+		first = &GStmt{Kind: StSend, Sent: &GSent{E: lit(asset, bi(k))}, Src: srcAcct("a"),
+			Dst: &GDest{Kind: DstAllot, Items: []*GDestItem{
+				{Allot: &GAllot{Kind: AlRatio, E: g.ratio(bi(1), bi(10))}, To: &GKod{To: dstAcct("world")}},
+				{Allot: &GAllot{Kind: AlRemaining}, To: &GKod{To: dstAcct("c")}}}}}
+		left = have - k
+	case 2: // to itself
+		first = &GStmt{Kind: StSend, Sent: &GSent{E: lit(asset, bi(k))}, Src: srcAcct("a"), Dst: dstAcct("a")}
+	case 3: // received from another account
+		first = &GStmt{Kind: StSend, Sent: &GSent{E: lit(asset, bi(k))}, Src: srcAcct("world"), Dst: dstAcct("a")}
+		left = have + k
+	default: // ordered destination: a capped part to @world, the rest back to itself
+		first = &GStmt{Kind: StSend, Sent: &GSent{E: lit(asset, bi(k))}, Src: srcAcct("a"),
+			Dst: &GDest{Kind: DstInorder, Clauses: []*GClause{{Cap: lit(asset, bi(int64(g.r.Intn(int(k)+1)))), To: &GKod{To: dstAcct("world")}}},
+				Remaining: &GKod{To: dstAcct("a")}}}
+		left = -1 // depends on the cap: any amount around the balance
+	}
+	g.prog.Stmts = append(g.prog.Stmts, first)
+	if left < 0 {
+		left = have
+	}
+	m := left + int64(g.r.Intn(5)) - 2
+	if m < 0 {
+		m = 0
+	}
+	var src *GSource = srcAcct("a")
+	switch g.r.Intn(3) {
+	case 1:
+		src = &GSource{Kind: SrcOverdraft, E: acct("a"), Bounded: lit(asset, bi(int64(g.r.Intn(4))))}
+	case 2:
+		src = &GSource{Kind: SrcInorder, Subs: []*GSource{srcAcct("a"), srcAcct("b")}}
+	}
+	sent := &GSent{E: lit(asset, bi(m))}
+	if g.r.Chance(1, 4) {
+		sent = &GSent{All: true, E: &GExpr{Kind: XAsset, S: asset}}
+	}
+	g.prog.Stmts = append(g.prog.Stmts, &GStmt{Kind: StSend, Sent: sent, Src: src, Dst: dstAcct("d")})
 	return g.prog
 }
